@@ -97,6 +97,14 @@ class ExcObj:
         return f"<{self.name} @{self.origin}>"
 
 
+class ForeignReflecting:
+    """A caller's object whose class implements every reflected operator (__radd__, __rmul__, __rpow__ ...)
+    and accepts any left operand (a quantity type, collections.UserString, a mock): Python hands it the
+    operation whenever the left operand's method returns NotImplemented."""
+    def __repr__(self):
+        return "<foreign object with permissive reflected operators>"
+
+
 class OneShot(list):
     """What zip(), map(), filter(), reversed(), enumerate(), iter() and generator expressions return:
     an iterator.  Its items are computed eagerly, but it can be consumed only once -- a second pass over
